@@ -1,6 +1,6 @@
 (* C01 layer 7 -- rrule_iter_correct for the YEARLY family WITH BYEASTER: as RRYearlyThm, for rules
    that may also use BYEASTER, provided every pass stays within the years for which C19 proves
-   easter() right (1583..4099). *)
+   easter() right (1583..4098). *)
 From Coq Require Import ZArith List Bool Lia ZifyBool.
 From V Require Import base.Cal gen.RrTables rr.RRBase rr.RRNorm rr.RRMasks rr.RRIter rr.RRSpec
   rr.RRWeekCal rr.RRWeekFinal rr.RRFilterThm rr.RRFilterSpec rr.RRGateThm rr.RRTimesetThm rr.RRPassThm
@@ -39,7 +39,7 @@ Qed.
 Lemma yearly_pass_full_e : forall r rl k month ii ts out,
   normalize r = Ok rl -> yfam_e r ->
   let y := r_y r + k * r_interval r in
-  2 <= y <= 9999 -> (r_byeaster r = None \/ 1583 <= y <= 4099) ->
+  1 <= y <= 9999 -> (r_byeaster r = None \/ 1583 <= y <= 4098) ->
   rebuild rl ii_init y month = Ok ii -> timeset rl = Some ts ->
   exists ds ds' f out',
     getdayset rl ii y month 1 = Ok (ds, 0, year_len y) /\
@@ -71,8 +71,8 @@ Definition at_pass_e (r : raw) (rl : rule) (ts : list Z) (k : Z) (s : state) : P
 
 Lemma yearly_step_e : forall r rl ts k s,
   normalize r = Ok rl -> yfam_e r -> timeset rl = Some ts -> at_pass_e r rl ts k s ->
-  2 <= r_y r + k * r_interval r -> r_y r + (k + 1) * r_interval r <= 9999 ->
-  (r_byeaster r = None \/ (1583 <= r_y r + k * r_interval r /\ r_y r + (k + 1) * r_interval r <= 4099)) ->
+  1 <= r_y r + k * r_interval r -> r_y r + (k + 1) * r_interval r <= 9999 ->
+  (r_byeaster r = None \/ (1583 <= r_y r + k * r_interval r /\ r_y r + (k + 1) * r_interval r <= 4098)) ->
   exists s' acc',
     step rl s = inl s' /\ at_pass_e r rl ts (k + 1) s' /\
     sp_take r (step_items r k) None (c_out s) = (acc', None, false) /\ c_out s' = acc'.
@@ -92,18 +92,18 @@ Proof.
     unfold between in *. lia. }
   destruct Hitv as [Hitv Hwk].
   set (y := r_y r + k * r_interval r) in *.
-  assert (Hy : 2 <= y <= 9999) by nia.
+  assert (Hy : 1 <= y <= 9999) by nia.
   rewrite Ay, Am in Ar.
-  assert (HEy : r_byeaster r = None \/ 1583 <= y <= 4099).
+  assert (HEy : r_byeaster r = None \/ 1583 <= y <= 4098).
   { destruct HE as [HE|HE]; [left; exact HE|right; unfold y; nia]. }
   destruct (yearly_pass_full_e r rl k (r_m r) (c_ii s) ts (c_out s) HN Y Hy HEy Ar HT)
     as (ds & ds' & f & out' & E1 & E2 & E3 & E4).
   fold y in E1, E2, E3.
   (* the next iterinfo *)
   set (y2 := y + interval rl).
-  assert (Hy2 : 2 <= y2 <= 9999).
+  assert (Hy2 : 1 <= y2 <= 9999).
   { unfold y2. rewrite Ni. replace (r_y r + (k + 1) * r_interval r) with (y + r_interval r) in Hhi by (unfold y; ring). lia. }
-  assert (HE2 : truthy (byeaster rl) = false \/ 1583 <= y2 <= 4099).
+  assert (HE2 : truthy (byeaster rl) = false \/ 1583 <= y2 <= 4098).
   { destruct EC as [[Ea0 T0]|[Ea1 T1]]; [left; exact T0|right].
     destruct HE as [HE|HE]; [congruence|].
     unfold y2. rewrite Ni. replace (r_y r + (k + 1) * r_interval r) with (y + r_interval r) in HE by (unfold y; ring).
@@ -142,8 +142,8 @@ Qed.
 (* the induction over passes *)
 Lemma yearly_run_is_spec_e : forall r rl ts limit n k s,
   normalize r = Ok rl -> yfam_e r -> timeset rl = Some ts -> at_pass_e r rl ts k s -> 0 <= k ->
-  2 <= r_y r -> r_y r + (k + Z.of_nat n) * r_interval r <= 9999 ->
-  (r_byeaster r = None \/ (1583 <= r_y r /\ r_y r + (k + Z.of_nat n) * r_interval r <= 4099)) ->
+  1 <= r_y r -> r_y r + (k + Z.of_nat n) * r_interval r <= 9999 ->
+  (r_byeaster r = None \/ (1583 <= r_y r /\ r_y r + (k + Z.of_nat n) * r_interval r <= 4098)) ->
   fst (run rl limit n s) = fst (spec_loop r limit n k None (c_out s)).
 Proof.
   intros r rl ts limit n. induction n as [|n IH]; intros k s HN Y HT A Hk Hlo Hhi HE; cbn [run spec_loop].
@@ -154,9 +154,9 @@ Proof.
     { unfold spec_wf in HW.
       repeat match type of HW with _ && _ = true =>
         let H := fresh "W" in apply andb_true_iff in HW; destruct HW as [HW H] end. lia. }
-    assert (Hyk : 2 <= r_y r + k * r_interval r) by nia.
+    assert (Hyk : 1 <= r_y r + k * r_interval r) by nia.
     assert (Hyk1 : r_y r + (k + 1) * r_interval r <= 9999) by nia.
-    assert (HEk : r_byeaster r = None \/ (1583 <= r_y r + k * r_interval r /\ r_y r + (k + 1) * r_interval r <= 4099)).
+    assert (HEk : r_byeaster r = None \/ (1583 <= r_y r + k * r_interval r /\ r_y r + (k + 1) * r_interval r <= 4098)).
     { destruct HE as [HE|HE]; [left; exact HE|right; nia]. }
     destruct (yearly_step_e r rl ts k s HN Y HT A Hyk Hyk1 HEk) as (s' & acc' & ES & A' & ET & EO).
     rewrite ES.
@@ -179,8 +179,8 @@ Qed.
 (* rrule_iter_correct for the family: same instants, same order, for every number of passes that
    stays within year 9999 and every limit *)
 Theorem yearly_iter_correct_e : forall r rl limit n,
-  normalize r = Ok rl -> yfam_e r -> 2 <= r_y r -> r_y r + Z.of_nat n * r_interval r <= 9999 ->
-  (r_byeaster r = None \/ (1583 <= r_y r /\ r_y r + Z.of_nat n * r_interval r <= 4099)) ->
+  normalize r = Ok rl -> yfam_e r -> 1 <= r_y r -> r_y r + Z.of_nat n * r_interval r <= 9999 ->
+  (r_byeaster r = None \/ (1583 <= r_y r /\ r_y r + Z.of_nat n * r_interval r <= 4098)) ->
   fst (iterate rl limit n) = fst (spec_iter r limit n).
 Proof.
   intros r rl limit n HN Y Hlo Hhi HE.
@@ -197,13 +197,14 @@ Proof.
       let H := fresh "W" in apply andb_true_iff in HW; destruct HW as [HW H] end.
     unfold between in *. lia. }
   destruct Hwf as [Hitv Hwk].
-  assert (Hy0 : 2 <= r_y r <= 9999) by nia.
-  assert (HE0 : truthy (byeaster rl) = false \/ 1583 <= r_y r <= 4099).
+  assert (Hy0 : 1 <= r_y r <= 9999) by nia.
+  assert (HE0 : truthy (byeaster rl) = false \/ 1583 <= r_y r <= 4098).
   { destruct EC as [[Ea0 T0]|[Ea1 T1]]; [left; exact T0|right]. destruct HE as [HE|HE]; [congruence|]. nia. }
   destruct (rebuild_succeeds rl (r_y r) (r_m r) Hy0 ltac:(rewrite Nwk; exact Hwk) TN HE0) as (ii0 & R0).
   pose proof (timeset_is_spec r rl HN HW ltac:(rewrite Hfr; reflexivity)) as HT.
-  unfold iterate, init_state. rewrite Ny, Nm, Nd, R0. cbn [bind].
-  rewrite Nfr. change (YEARLY <? HOURLY) with true. cbv iota. rewrite HT. cbn [bind]. rewrite Nc, Hc.
+  unfold iterate, init_state. rewrite Nfr. change (YEARLY =? WEEKLY) with false. cbn [andb]. cbv iota.
+  rewrite Ny, Nm, Nd, R0. cbn [bind].
+  change (YEARLY <? HOURLY) with true. cbv iota. rewrite HT. cbn [bind]. rewrite Nc, Hc.
   unfold spec_iter. rewrite Hc.
   set (s0 := mkSt _ _ _ _ _ _ _ _ _ _ _).
   assert (A0 : at_pass_e r rl (period_times r 0) 0 s0).
